@@ -12,7 +12,7 @@ from harness import pipe_common as PC
 
 PID = 'C06'
 INVS = ['EnumerationIsSpec', 'PairsExact', 'BothOrientations', 'ConstantOnce', 'NoForeignColumn', 'RelOnlyWithLabel', 'ScheduleIndependent', 'ResultsComplete']
-HEUR = {'scoring': ['MI-numba-randomized', 'MI', 'max-value-coverage'], 'scoring3mr': ['MI-numba-3mr'], 'Constant': ['Constant']}
+HEUR = {'scoring': ['MI-numba-randomized', 'MI', 'max-value-coverage', 'correlation-Pearson'], 'scoring3mr': ['MI-numba-3mr'], 'Constant': ['Constant']}
 
 # id -> name maps whose string order is the id order; the label's id differs per map
 NAMEMAPS = {
@@ -51,7 +51,10 @@ def run_spec(V, label, c, emit='EmitConfig', coverage=False):
 
 
 def mkframe(rng, names, nrows=12):
-    return {n: [rng.choice(['', 'x', 'y', 'é', '10', '9']) if i else str(r % 2) for r in range(nrows)] for i, n in enumerate(names)}
+    fr = {n: [rng.choice(['', 'x', 'y', 'é', '10', '9']) if i else str(r % 2) for r in range(nrows)] for i, n in enumerate(names)}
+    if len(names) >= 2 and rng.random() < 0.35:
+        fr[names[rng.randrange(len(names))]] = ['k'] * nrows      # a column that is constant in the batch: some heuristics score it NaN
+    return fr
 
 
 def check_batch(V, key, job, kind, cap, ncand, names_all, spec_pairs, label_name, trip, ndup=0):
@@ -70,7 +73,7 @@ def check_batch(V, key, job, kind, cap, ncand, names_all, spec_pairs, label_name
     if cap >= ncand and pairs != sp and pairs <= sp:
         V.violation('missing-pair:' + key, f'requested pairs not evaluated: {sorted(sorted(p) for p in sp - pairs)[:4]}', job); bad = True
     if kind != 'Constant':
-        ts = {(a, b, s) for a, b, s in trip}
+        ts = {(a, b, s if s == s else 'nan') for a, b, s in trip}          # an undefined score is still a row (NaN compares unequal to itself)
         for a, b, s in ts:
             if (b, a, s) not in ts:
                 V.violation('orientation:' + key, f'({a!r},{b!r},{s}) has no mirrored row with the same score', job); bad = True
